@@ -12,19 +12,44 @@ def Str.ofString (s : String) : Str := s.toUTF8.toList.map (·.toNat)
 def Str.toString (s : Str) : String :=
   (String.fromUTF8? (ByteArray.mk (s.map (·.toUInt8)).toArray)).getD "<invalid utf8>"
 
-/-- decimal digits of a natural number, most significant first (Go's strconv.Itoa for n ≥ 0). -/
-def digitsAux : Nat → Nat → List Nat → List Nat
-  | 0, _, acc => acc
-  | fuel+1, n, acc =>
-    if n < 10 then (48 + n) :: acc else digitsAux fuel (n / 10) ((48 + n % 10) :: acc)
+end PSA
 
-def itoaNat (n : Nat) : Str := digitsAux (n+1) n []
+namespace PSA
 
-/-- parse a non-empty list of ASCII digits (no sign), any length. -/
-def parseDigits : List Nat → Option Nat
-  | [] => none
-  | ds => ds.foldl (fun acc d => match acc with
-      | none => none
-      | some a => if 48 ≤ d ∧ d ≤ 57 then some (a * 10 + (d - 48)) else none) (some 0)
+/-- strings.Join -/
+def Str.join (sep : Str) : List Str → Str
+  | [] => []
+  | [a] => a
+  | a :: b :: rest => a ++ sep ++ Str.join sep (b :: rest)
+
+/-- insertion into a list sorted by Go's bytewise `<`, dropping duplicates (sets.String.List()) -/
+def insertDedup (x : Str) : List Str → List Str
+  | [] => [x]
+  | y :: ys => if x < y then x :: y :: ys else if x = y then y :: ys else y :: insertDedup x ys
+def sortDedup (l : List Str) : List Str := l.foldr insertDedup []
+
+/-- sort.Strings -/
+def insertStr (x : Str) : List Str → List Str
+  | [] => [x]
+  | y :: ys => if x < y then x :: y :: ys else y :: insertStr x ys
+def sortStrs (l : List Str) : List Str := l.foldr insertStr []
+
+def pluralize (s p : Str) (n : Nat) : Str := if n = 1 then s else p
+
+/-- policy.joinQuote -/
+def joinQuote (l : List Str) : Str :=
+  if l.isEmpty then [] else b!"\"" ++ Str.join b!"\", \"" l ++ b!"\""
+
+def hexDigit (n : Nat) : Nat := if n < 10 then 48 + n else 87 + n
+
+/-- strconv.Quote on bytes: printable ASCII, the named escapes, \xNN for other control bytes; bytes ≥ 0x80 pass
+    through (valid, printable UTF-8 is assumed there — the text-comparing generators stay inside that alphabet). -/
+def quoteByte (c : Nat) : Str :=
+  if c = 34 then b!"\\\"" else if c = 92 then b!"\\\\"
+  else if c = 7 then b!"\\a" else if c = 8 then b!"\\b" else if c = 12 then b!"\\f" else if c = 10 then b!"\\n"
+  else if c = 13 then b!"\\r" else if c = 9 then b!"\\t" else if c = 11 then b!"\\v"
+  else if c < 32 ∨ c = 127 then [92, 120, hexDigit (c / 16), hexDigit (c % 16)]
+  else [c]
+def goQuote (s : Str) : Str := b!"\"" ++ s.flatMap quoteByte ++ b!"\""
 
 end PSA
